@@ -356,7 +356,7 @@ pub fn check(rec: &Record) -> (Vec<Violation>, Probes) {
             if d.oneway {
                 continue;
             }
-            let detaches = d.ops.contains(&DlOp::Detach);
+            let detaches = d.ops.contains(&DlOp::Detach) || d.ops.contains(&DlOp::DropReader);
             let mut sources = vec![];
             if sc.topo == Topo::Pair {
                 for a in sc.agents.iter().filter(|a| a.node == d.node) {
